@@ -739,11 +739,29 @@ fn pick_len(rng: &mut Rng, round: u64, salt: u64) -> usize {
     }
 }
 
+/// the transaction id of the message the generated address will be put in (set by the callers that know it): lets the
+/// generator craft addresses whose XOR-ed form is special
+pub static TXID_HINT: std::sync::Mutex<[u8; 12]> = std::sync::Mutex::new([0u8; 12]);
 fn rand_ip(rng: &mut Rng) -> (u8, Vec<u8>) {
-    if rng.chance(1, 2) {
-        (4, rng.bytes(4))
-    } else {
-        (6, rng.bytes(16))
+    let v4 = rng.bytes(4);
+    match rng.below(12) {
+        // addresses that address-handling code treats specially: IPv4-mapped / IPv4-compatible / NAT64 IPv6, unspecified,
+        // loopback, broadcast
+        0 => { let mut a = vec![0u8; 10]; a.extend_from_slice(&[0xFF, 0xFF]); a.extend_from_slice(&v4); (6, a) }
+        1 => { let mut a = vec![0u8; 12]; a.extend_from_slice(&v4); (6, a) }
+        2 => { let mut a = vec![0x00, 0x64, 0xFF, 0x9B, 0, 0, 0, 0, 0, 0, 0, 0]; a.extend_from_slice(&v4); (6, a) }
+        3 => (6, rng.pick(&[vec![0u8; 16], { let mut l = vec![0u8; 15]; l.push(1); l }, vec![0xFFu8; 16]]).clone()),
+        4 => (4, rng.pick(&[vec![0u8; 4], vec![255u8; 4], vec![127, 0, 0, 1]]).clone()),
+        // an IPv6 address whose XOR with (magic cookie || transaction id) is an IPv4-mapped address
+        5 => {
+            let txid = *TXID_HINT.lock().unwrap();
+            let mut key = vec![0x21, 0x12, 0xA4, 0x42];
+            key.extend_from_slice(&txid);
+            let mut target = vec![0u8; 10]; target.extend_from_slice(&[0xFF, 0xFF]); target.extend_from_slice(&v4);
+            (6, target.iter().zip(key.iter()).map(|(a, b)| a ^ b).collect())
+        }
+        6 | 7 | 8 => (4, v4),
+        _ => (6, rng.bytes(16)),
     }
 }
 
@@ -1084,8 +1102,9 @@ fn rooms_for(rng: &mut Rng, size: usize) -> Vec<usize> {
 fn run_kind(out: &mut Out, rng: &mut Rng, round: u64, ty: u16, fam: Fam, counts: &mut [u64; 4]) {
     let big = fam == Fam::Text && ty == 0x0026 && round % 64 == 0;
     let mut valid: Vec<Vec<u8>> = vec![];
+    let txid: [u8; 12] = rng.bytes(12).try_into().unwrap();
+    *TXID_HINT.lock().unwrap() = txid;
     for spec in gen_specs(rng, round, ty, fam, big) {
-        let txid: [u8; 12] = rng.bytes(12).try_into().unwrap();
         let attr = match guarded(|| build(ty, &spec)) {
             Ok(Some(a)) => a,
             Ok(None) => {
